@@ -17,6 +17,7 @@ package verifsched
 import (
 	"fmt"
 	"runtime"
+	"sort"
 	"strings"
 	"sync"
 )
@@ -53,7 +54,63 @@ var (
 	mu      sync.Mutex
 	threads = map[int]*thread{}
 	byGoid  = map[string]*thread{}
+	// lock-order observation: what every goroutine (scheduler thread or not) holds, and every pair
+	// (site of a lock held, site of the lock acquired while holding it) seen so far
+	held  = map[string][]heldLock{}
+	edges = map[[2]string]int{}
 )
+
+type heldLock struct {
+	m    any // address of the mutex
+	site string
+}
+
+func noteAcquired(m any, site string) {
+	if m == nil {
+		return
+	}
+	g := goid()
+	mu.Lock()
+	for _, h := range held[g] {
+		if h.m != m {
+			edges[[2]string{h.site, site}]++
+		}
+	}
+	held[g] = append(held[g], heldLock{m, site})
+	mu.Unlock()
+}
+
+// Release replaces x.Unlock() / x.RUnlock() (plain or deferred): m is &x.
+func Release(unlock func(), m any) {
+	g := goid()
+	mu.Lock()
+	hs := held[g]
+	for i := len(hs) - 1; i >= 0; i-- {
+		if hs[i].m == m {
+			hs = append(hs[:i], hs[i+1:]...)
+			break
+		}
+	}
+	if len(hs) == 0 {
+		delete(held, g)
+	} else {
+		held[g] = hs
+	}
+	mu.Unlock()
+	unlock()
+}
+
+// Edges returns the lock-order pairs observed since the process started: "heldSite acquiredSite count".
+func Edges() []string {
+	mu.Lock()
+	defer mu.Unlock()
+	var out []string
+	for k, n := range edges {
+		out = append(out, fmt.Sprintf("%s %s %d", k[0], k[1], n))
+	}
+	sort.Strings(out)
+	return out
+}
 
 // Reset forgets every thread (finished or not). Unfinished threads stay parked forever; the driver is
 // expected to run every thread to completion before it calls Reset.
@@ -168,13 +225,14 @@ func Pending(id int) (site string, chain []string, ok bool) {
 	return t.site, t.chain, true
 }
 
-func acquire(try func() bool, site string) {
+func acquire(try func() bool, site string, m any) {
 	t := current()
 	if t == nil {
 		// not a scheduler thread: blocking acquisition
 		for !try() {
 			runtime.Gosched()
 		}
+		noteAcquired(m, site)
 		return
 	}
 	t.site, t.chain = site, chain()
@@ -182,14 +240,15 @@ func acquire(try func() bool, site string) {
 	for {
 		<-t.resume
 		if try() {
+			noteAcquired(m, site)
 			return
 		}
 		t.events <- Event{Kind: Blocked, Site: t.site, Chain: t.chain}
 	}
 }
 
-// Acquire replaces x.Lock(): try is x.TryLock.
-func Acquire(try func() bool, site string) { acquire(try, site) }
+// Acquire replaces x.Lock(): try is x.TryLock, m is &x.
+func Acquire(try func() bool, site string, m any) { acquire(try, site, m) }
 
-// RAcquire replaces x.RLock(): try is x.TryRLock.
-func RAcquire(try func() bool, site string) { acquire(try, site) }
+// RAcquire replaces x.RLock(): try is x.TryRLock, m is &x.
+func RAcquire(try func() bool, site string, m any) { acquire(try, site, m) }
